@@ -41,11 +41,14 @@ let obs_str = function
   | C20_ObsNone -> "ok"
   | C20_ObsExc e -> "!" ^ exc_name e
   | C20_ObsUnmodelled -> "?"
+let dropped : int list ref = ref []          (* registers whose Python reference was dropped (`drop r`): shown as x *)
 let dump_str st =
-  "{" ^ String.concat "|" (List.map (fun (k, vals) -> kind_letter k ^ "[" ^ string_of_qlist vals ^ "]") (c20_dump st)) ^ "}"
+  "{" ^ String.concat "|" (List.mapi (fun i (k, vals) ->
+          if List.mem i !dropped then "x" else kind_letter k ^ "[" ^ string_of_qlist vals ^ "]") (c20_dump st)) ^ "}"
 
 exception Bad_op of string
 (* returns the op and whether the dump is printed after it *)
+let float_mode = ref false     (* `f32` scripts: FieldVector<float,n>: float64 buffers are the rejected ones, float32 buffers the accepted *)
 let parse_op ?(npv = false) (s : string) : c20_op * bool =
   let t = Array.of_list (List.filter (fun x -> x <> "") (String.split_on_char ' ' s)) in
   let r k = nat_of_int (int_of_string t.(k)) in
@@ -57,6 +60,8 @@ let parse_op ?(npv = false) (s : string) : c20_op * bool =
     (* `npv` scripts: registers are NumPy arrays; every access goes through a C++ NumPyVector around register r *)
     match t.(0) with
     | "new" -> C20_NewArr (ql 3), false
+    | "newv" -> C20_New (r 1, ql 3), false               (* a FieldVector whose buffer view is wrapped by the NumPyVector *)
+    | "view" -> C20_View (r 1), false
     | "slice" -> C20_Slice (r 1, optz t.(2), optz t.(3), optz t.(4)), false
     | "len" -> C20_NLen (r 1), false
     | "get" -> C20_NGet (r 1, ni 2), false
@@ -73,10 +78,20 @@ let parse_op ?(npv = false) (s : string) : c20_op * bool =
     | x -> raise (Bad_op x)
   else
   match t.(0) with
+  | "new" when !float_mode && List.mem t.(2) ["np"; "nprev"; "npstride"; "array"; "npcol"; "memview"; "npint"] -> C20_NewBadBuffer (false, nat_of_int 1), false
+  | "new" when !float_mode && List.mem t.(2) ["npf32"; "nprev32"] -> C20_New (r 1, ql 3), false
+  | "crossbad" -> C20_NewBadBuffer (false, nat_of_int 1), false
   | "new" when List.mem t.(2) ["npint"; "npf32"; "bytearray"; "arrayi"] -> C20_NewBadBuffer (false, nat_of_int 1), false
   | "new" when t.(2) = "np2d" -> C20_NewBadBuffer (true, nat_of_int 2), false
   | "newfrom" -> C20_NewFromBuf (r 1, r 2), false       (* FieldVector_n( R[r] ) through the buffer constructor *)
   | "new" -> C20_New (r 1, ql 3), false
+  | "setslicefrom" -> C20_SetSliceFrom (r 1, optz t.(2), optz t.(3), optz t.(4), r 5), true
+  | "arriadd" -> C20_ArrIAdd (r 1, r 2), true
+  | "arrisub" -> C20_ArrISub (r 1, r 2), true
+  | "arrimuls" -> C20_ArrIMulS (r 1, qq 2), true
+  | "arriadds" -> C20_ArrIAddS (r 1, qq 2), true
+  | "arradd" -> C20_ArrAdd (r 1, r 2), false
+  | "drop" -> C20_Drop (r 1), false
   | "copyargs" -> C20_CopyArgs (r 1, ql 2), false
   | "float" -> C20_Float (r 1), false
   | "setslice" -> C20_SetSlice (r 1, optz t.(2), optz t.(3), optz t.(4), ql 5), true
@@ -93,6 +108,7 @@ let parse_op ?(npv = false) (s : string) : c20_op * bool =
   | "getnp" -> C20_Get (r 1, zi 2), false            (* numpy.int64 index *)
   | "setnp" -> C20_Set (r 1, zi 2, qq 3), true
   | "ellipsis" -> C20_Slice (r 1, None, None, None), false
+  | "bufinfo32" -> C20_Len (r 1), false
   | "bufinfo" -> C20_Len (r 1), false                (* memoryview(v): format d, one dimension of n entries, stride 8, writable *)
   | "view" -> C20_View (r 1), false
   | "slice" -> C20_Slice (r 1, optz t.(2), optz t.(3), optz t.(4)), false
@@ -184,6 +200,18 @@ let tv_line (parts : string list) : string =
       | C20_Exc e -> add (Printf.sprintf "bad%d:!%s" i (exc_name e))) idx;
     let cp2 = c20_tv_assign !cp tv in
     add ("assign=" ^ String.concat "," (List.map (fun i -> tv_res (c20_tv_getitem cp2 (z_of_int i))) idx));
+    let showall l = String.concat "," (List.map (fun i -> tv_res (c20_tv_getitem l (z_of_int i))) idx) in
+    add ("self=" ^ showall (c20_tv_assign tv tv));
+    let rec find_pair a b = if a >= n then None else if b >= n then find_pair (a + 1) (a + 2)
+      else if c20_tv_type (List.nth tv a) = c20_tv_type (List.nth tv b) then Some (a, b) else find_pair a (b + 1) in
+    (match find_pair 0 1 with
+     | None -> add "xfer=-"
+     | Some (a, b) ->
+        (match c20_tv_setitem cp2 (z_of_int a) (List.nth tv b) with
+         | C20_Ok l -> add ("xfer=" ^ showall l)
+         | C20_Exc e -> add ("xfer=!" ^ exc_name e)));
+    let rec first_vec0 i = function [] -> 0 | C20_TVec _ :: _ -> i | _ :: t -> first_vec0 (i + 1) t in
+    add ("keep=" ^ tv_res (c20_tv_getitem tv (z_of_int (first_vec0 0 tv))));
     (* tv[j] is a reference to the stored element: writing entry 0 of the first vector element through it *)
     let rec first_vec i = function [] -> None | C20_TVec (_ :: r) :: _ -> Some (i, r) | _ :: t -> first_vec (i + 1) t in
     (match first_vec 0 tv with
@@ -231,12 +259,15 @@ let () =
         if head = "tv" || head = "tva" then tv_line (List.tl parts) else
         if head = "dyn" || head = "dynj" then (try dyn_line (List.tl parts) with Bad_op _ -> "-") else
         let npv = (head = "npv") in
-        let parts = if npv then List.tl parts else parts in
+        float_mode := (head = "f32");
+        let parts = if npv || !float_mode then List.tl parts else parts in
         let ops = List.map (fun s -> parse_op ~npv (String.trim s)) parts in
+        dropped := [];
         let st = ref c20_init and toks = ref [] in
         List.iter (fun (op, _) ->
           let dumps = c20_mutating op in                  (* the extracted classification used by C20_in_place_frame *)
           let (st', ob) = c20_step_reg cfg !st op in
+          (match op with C20_Drop r -> dropped := int_of_nat r :: !dropped | _ -> ());
           st := st';
           toks := (obs_str ob ^ (if dumps then dump_str st' else "")) :: !toks) ops;
         String.concat " ; " (List.rev !toks) ^ " # " ^ dump_str !st ^ (if c20_wfb !st then "" else " NOT-WF")
